@@ -155,8 +155,10 @@ struct JSONUtils {
                                     continue;
                                 }
 
-                                // Surrogate
-                                if ((length - offset) > SizeT{5}) {
+                                // Surrogate: the low half must follow as another \u escape.
+                                if (((length - offset) > SizeT{5}) && (content[offset] == JSONotation::BSlashChar) &&
+                                    ((content[offset + SizeT{1}] == JSONotation::U_Char) ||
+                                     (content[offset + SizeT{1}] == JSONotation::CU_Char))) {
                                     code = (code ^ 0xD800U) << 10U;
                                     offset += SizeT{2};
 
